@@ -17,8 +17,9 @@ if VERIF not in sys.path:
 
 CONTRACT_MODULES = ["c_host_vector", "c_network", "c_environment", "c_state", "c_layout", "c_action", "c_scenarios",
                     "c_loader", "c_score"]
-BOUNDED_QUICK = [{"subnets": [1, 1, 2]}]
-BOUNDED_THOROUGH = [{"subnets": [1, 1, 2]}, {"subnets": [1, 2, 1, 1]}, {"subnets": [1, 1, 1, 1], "n_sens": 2},
+BOUNDED_QUICK = [{"subnets": [1, 1, 2]}, {"subnets": [1, 2, 1], "addr_perm": [2, 0, 1], "n_sens": 2}]
+BOUNDED_THOROUGH = [{"subnets": [1, 1, 2]}, {"subnets": [1, 2, 1], "addr_perm": [2, 0, 1], "n_sens": 2},
+                    {"subnets": [1, 2, 1, 1]}, {"subnets": [1, 1, 1, 1], "n_sens": 2},
                     {"subnets": [1, 3], "n_srv": 1, "n_os": 1, "n_proc": 1}]
 
 TRUSTED_BASE = [
@@ -49,12 +50,21 @@ def load_contracts():
     return REG
 
 
+# properties whose frame obligations are generated for EVERY function under contract
+UNIVERSAL_FRAME_PROPS = {"C19": None,      # no undeclared global reads / writes anywhere
+                         "C13": ("nasim.envs.",)}   # purity: everything generative_step can reach
+
+
 def tasks_for(prop, REG):
     out = []
     for q, c in REG.contracts.items():
         props = set(c.default_tags)
         for v in c.tags.values():
             props |= set(v)
+        if prop in UNIVERSAL_FRAME_PROPS:
+            pre = UNIVERSAL_FRAME_PROPS[prop]
+            if pre is None or q.startswith(pre):
+                props.add(prop)
         if prop in props and getattr(c, "verify", True):
             for v in c.variants():
                 out.append((q, v))
@@ -340,7 +350,7 @@ def check_property(prop, tier="quick", tree="/repo", record=False, jobs=None, le
         if b.get("bounded_only") and b["unknown"] and name not in bref:
             D.undecided.append((name, "bounded instance undecided"))
     # ---- vanished obligations
-    if exp and not record:
+    if exp and not record and not D.violations:
         for name, st in exp.items():
             if ":raises:" in name or name.startswith("pre@"):
                 continue        # exceptional-exit / call-site obligations exist only while such a path is explored
@@ -351,7 +361,9 @@ def check_property(prop, tier="quick", tree="/repo", record=False, jobs=None, le
         if not getattr(REG.contracts[q], "bounded", True):
             continue
         st = covers.get((q, v), [])
-        if not any(s == "feasible" for s in st):
+        # vacuous = no normal-exit path at all, or every one of them has a provably contradictory hypothesis set
+        # ("unknown" = quantified hypotheses the solver could neither satisfy nor refute: not evidence of vacuity)
+        if not st or all(s == "infeasible" for s in st):
             lim = [r for r in resB if r["qualname"] == q and r["variant"] == v and r["limit"]]
             if not lim and not REG.contracts[q].must_not_return(v):
                 D.failures.append(f"vacuity guard: no feasible normal-exit path for {q}[{v}] (covers={st})")
